@@ -22,7 +22,7 @@ Ev == T[l]
 IsEv(a) == l <= Len(T) /\ Ev.a = a /\ l' = l + 1 /\ UNCHANGED tid
 
 GStartAuth    == IsEv("StartAuth") /\ StartAuth(Ev.pw)
-GStartProtect == IsEv("StartProtect") /\ StartProtect(Ev.pw)
+GStartProtect == IsEv("StartProtect") /\ StartProtect(Ev.pw, {Ev.bs[i] : i \in DOMAIN Ev.bs})
 GStartRead    == IsEv("StartRead") /\ StartRead(Ev.bs)
 GStartWrite   == IsEv("StartWrite") /\ StartWrite(Ev.b, Ev.v)
 GStartNdef    == IsEv("StartNdef") /\ StartNdef
